@@ -8,6 +8,11 @@ from reamber.osu.lists.notes.OsuHitList import OsuHitList
 from reamber.osu.lists.notes.OsuHoldList import OsuHoldList
 
 
+def _sample_name(sample) -> str:
+    """Sample file name; notes without a sample hold the integer default"""
+    return str(sample, "ascii") if isinstance(sample, bytes) else ""
+
+
 class BMSToOsu(ConvertBase):
     @classmethod
     def convert(cls, bms: BMSMap) -> OsuMap:
@@ -20,7 +25,7 @@ class BMSToOsu(ConvertBase):
             dict(
                 offset="offset",
                 column="column",
-                hitsound_file=bms.hits.sample.apply(str, args={"ascii"}),
+                hitsound_file=bms.hits.sample.apply(_sample_name),
             ),
         )
         osu.holds = cls.cast(
@@ -30,7 +35,7 @@ class BMSToOsu(ConvertBase):
                 offset="offset",
                 column="column",
                 length="length",
-                hitsound_file=bms.holds.sample.apply(str, args={"ascii"}),
+                hitsound_file=bms.holds.sample.apply(_sample_name),
             ),
         )
         osu.bpms = cls.cast(bms.bpms, OsuBpmList, dict(offset="offset", bpm="bpm"))
